@@ -396,9 +396,9 @@ pub fn run(tier: &str, seed: u64, s: &mut Sink) {
         }
     }
     // ---- all permutations: differential on every order up to 4 (6 in thorough) chunks
-    let max_all = if thorough { 6 } else { 4 };
+    let max_all = if thorough { 6 } else { 5 };
     for n in 1..=6usize {
-        let reps = if thorough { 4 } else { 1 };
+        let reps = if thorough { 40 } else { 1 };
         for _ in 0..reps {
             let (a, b) = (1 + r.below(3) as usize, r.below(6) as usize);
             let p = pwb_payload(&mut r, a, b);
@@ -440,11 +440,13 @@ pub fn run(tier: &str, seed: u64, s: &mut Sink) {
         emit_orders(s, &mut r, "final-chunk-size", &m, true);
     }
     // ---- every single fault, on messages of 1..6 chunks and one of many chunks
-    for n in 1..=6usize {
-        let p = pwb_payload(&mut r, 2, 4);
-        let k = (p.len() + n - 1) / n;
-        let m = split(&mut r, &devs, &p, k);
-        faults(s, &mut r, &devs, &m, true);
+    for rep in 0..if thorough { 6 } else { 1 } {
+        for n in 1..=6usize {
+            let p = pwb_payload(&mut r, 2 + rep, 4 + rep);
+            let k = (p.len() + n - 1) / n;
+            let m = split(&mut r, &devs, &p, k);
+            faults(s, &mut r, &devs, &m, true);
+        }
     }
     {
         let p = pwb_payload(&mut r, 3, 6);
